@@ -15,10 +15,10 @@ func init() {
 		Level: "Decides the ordering and ownership clauses of the head-truncation, OOO garbage-collection and block-swap protocols on every CFG path: " +
 			"truncation time published before the in-process flag, readers waited for before data is dropped, blocks swapped in before old ones are deleted, " +
 			"querier creation ordered against the collision test, close propagation of every reader a truncation waits on.",
-		Note:     "Trusted: go/packages type-checking, go/cfg; the rule instances frozen in checker/c06.go. Schedules themselves are not explored.",
-		Covers:   "protocol order in Head.truncateMemory/truncateOOO/truncateSeries, DB.Querier/blockChunkQuerierForRange, DB.compactOOOHead, DB.reloadBlocks/deleteBlocks, Block.Close/startRead, reader Close propagation; owners of Head.gc and truncateSeriesAndChunkDiskMapper; writers of DB.blocks and DB.lastGarbageCollectedMmapRef.",
-		NotCover: "liveness under the 500 ms polling, the arithmetic of IsQuerierCollidingWithTruncation, sample-level exactly-once.",
-		Run:      runC06,
+		Note:           "Trusted: go/packages type-checking, go/cfg; the rule instances frozen in checker/c06.go. Schedules themselves are not explored.",
+		Covers:         "protocol order in Head.truncateMemory/truncateOOO/truncateSeries, DB.Querier/blockChunkQuerierForRange, DB.compactOOOHead, DB.reloadBlocks/deleteBlocks, Block.Close/startRead, reader Close propagation; owners of Head.gc and truncateSeriesAndChunkDiskMapper; writers of DB.blocks and DB.lastGarbageCollectedMmapRef.",
+		NotCover:       "liveness under the 500 ms polling, the arithmetic of IsQuerierCollidingWithTruncation, sample-level exactly-once.",
+		Run:            runC06,
 		MinObligations: 40,
 	})
 }
@@ -95,7 +95,7 @@ func runC06(c *eng.Ctx) {
 		f.Dom("R4", p.MethodOn("tsdb:DB.mtx", "Lock"), swap)
 		f.AllPaths("R4", swap, p.MethodOn("tsdb:DB.mtx", "Unlock"), eng.AnyExit)
 		f.Dom("R4", swap, p.Call("tsdb:DB.deleteBlocks"))
-// loadDataAsQueryable builds a private, never-reloaded DB value for the read-only path
+		// loadDataAsQueryable builds a private, never-reloaded DB value for the read-only path
 		c.WritersSubset("R4", "tsdb:DB.blocks", 1, "tsdb:DB.reloadBlocks", "tsdb:DBReadOnly.loadDataAsQueryable")
 		c.CallersSubset("R4", "tsdb:DB.deleteBlocks", 1, "tsdb:DB.reloadBlocks")
 		d := c.Fn("tsdb:DB.deleteBlocks")
